@@ -384,7 +384,12 @@ def run_config(ctx, rep, cfg):
             else:
                 tsize = prog.ditypes.get(ctype, {}).get("size") if ctype else None
                 for (ini, ci, rq) in ainfo:
-                    if wl is None or rq is None or tsize is None:
+                    if wl is not None and rq is not None and tsize is None and wl == rq:
+                        # the context type is not recoverable on either side (void * all the way): two of the three
+                        # numbers are compared
+                        rep.ok("C17.R2", cons, site, "wipe length %d = allocation request in %s (context type not named at either site)" % (wl, ini.name), cfg=cn)
+                        expected_by_fn[(f.unit, f.name)] = wl
+                    elif wl is None or rq is None or tsize is None:
                         rep.inconclusive("C17.R2", cons, site, "wipe length %s / allocation request %s / sizeof(%s)=%s not all constant" % (wl, rq, ctype, tsize), cfg=cn)
                     elif wl == rq == tsize:
                         rep.ok("C17.R2", cons, site, "wipe length %d = allocation request in %s = sizeof(%s)" % (wl, ini.name, ctype), cfg=cn)
